@@ -359,7 +359,7 @@ def build_patterned_weight(ps, kind, dtype, info, name, leaf=False):
 
 
 def build(spec, kind='real', dtype=None, weight_hook=None, explicit_ids=False, range_domains=False,
-          node_prefix='v', edge_prefix='e', leaf_patterns=False, term_edge_prefix=None, start_last=False, ghosts=None):
+          node_prefix='v', edge_prefix='e', leaf_patterns=False, term_edge_prefix=None, start_last=False, ghosts=None, ext_twice=False):
     """Build an FGG from a spec through the public API.
     weight_hook(name, tensor) -> tensor|PatternedTensor lets callers wrap leaves / patterns.
     Returns (fgg, info) where info has the Node/Edge objects per rule for later inspection."""
@@ -391,6 +391,10 @@ def build(spec, kind='real', dtype=None, weight_hook=None, explicit_ids=False, r
             ed = fggs.Edge(els[e['label']], [nodes[a] for a in e['att']],
                            id=f'{pre}{ri}_{k}' if _explicit(k + 1) else None)
             g.add_edge(ed); edges.append(ed)
+        if ext_twice and nodes:
+            # an edit history of the external nodes: another tuple first (other arity / order), its type read, then the real one
+            g.ext = list(reversed(nodes)) if len(r['ext']) != len(nodes) else nodes[:-1]
+            _ = g.type
         g.ext = [nodes[p] for p in r['ext']]
         # ghosts: an edit history -- a nonterminal edge that is added to the right-hand side and removed again, either before
         # or after the rule joins the grammar (the grammar denoted is the one without it)
